@@ -74,7 +74,11 @@ struct M {
   MAKE_MOCK1(f, int(int));
   MAKE_MOCK1(g, int(int));
 };
-struct M2 { MAKE_MOCK1(f, int(int)); };
+// a movable mock class: its expectation lists live in the primary (movable) variant of the container, with a destructor of its own
+struct M2 {
+  static constexpr bool trompeloeil_movable_mock = true;
+  MAKE_MOCK1(f, int(int));
+};
 struct MWb { virtual ~MWb() = default; };
 using WObj = trompeloeil::deathwatched<MWb>;
 using E = std::unique_ptr<trompeloeil::expectation>;
